@@ -16,6 +16,7 @@
 EXTENDS Integers, Sequences, FiniteSets, TLC
 
 CONSTANTS Accts, Slots, Offs, Types, Names, Vals, MaxOps, MaxCalls,
+          NestIdx,         \* index values of nested keys (mapping keys / array indices): the names and, e.g., the empty byte string
           AllowConflicts,  \* BOOLEAN: also generate a registration that re-uses a name for another (slot, offset, type): it is accepted
                            \* and its key can be journaled and found by slot; which record the NAME then denotes is not judged
           MaxRefused,      \* at most this many refused operations in one history (they are what blows the space up)
@@ -55,7 +56,8 @@ NameChild(p, n) == IF \E k \in 1..Len(keys) : <<p, n, k>> \in kname THEN CHOOSE 
 RECURSIVE Walk(_, _)
 Walk(k, path) == IF k = 0 \/ path = <<>> THEN k ELSE Walk(NameChild(k, Head(path)), Tail(path))
 FindByPath(a, path) == Walk(RootOf(a), path)                    \* StateChanges.FindKeyIndices
-ChildNames(k) == {n \in Names : NameChild(k, n) # 0}             \* StorageKey.ChildrenIndices as a set
+AllIdx == Names \cup NestIdx
+ChildNames(k) == {n \in AllIdx : NameChild(k, n) # 0}             \* StorageKey.ChildrenIndices as a set
 Changes(k) == IF k = 0 THEN <<>> ELSE Get(chg, k, <<>>)
 
 ---------------------------------------------------------------------------
@@ -170,7 +172,7 @@ ExitCall ==
 Next ==
   /\ Len(hist) < MaxOps
   /\ \/ \E a \in Accts, n \in Names, s \in Slots, o \in Offs, t \in Types : RegTop(a, n, s, o, t)
-     \/ \E a \in Accts, ps \in Slots \cup {ProbeSlot}, pt \in Types, n \in Names, s \in Slots, o \in Offs, t \in Types :
+     \/ \E a \in Accts, ps \in Slots \cup {ProbeSlot}, pt \in Types, n \in NestIdx, s \in Slots, o \in Offs, t \in Types :
            RegNested(a, ps, pt, n, s, o, t)
      \/ \E a \in Accts, s \in Slots, o \in Offs, t \in Types, v \in Vals : Change(a, s, o, t, v)
      \/ EnterCall \/ ExitCall
@@ -189,7 +191,7 @@ ChangeVisibleBoth ==
   \A r \in reg : /\ Named(r) => Changes(FindByPath(r.acct, r.path)) = Get(exp, r, <<>>)
                  /\ Changes(FindKey(r.acct, r.slot, r.off, r.type)) = Get(exp, r, <<>>)
 \* the child indices reported for a node are exactly those registered under it
-KidsOf(r) == {n \in Names : PathTaken(r.acct, Append(r.path, n))}
+KidsOf(r) == {n \in AllIdx : PathTaken(r.acct, Append(r.path, n))}
 ChildIndicesExact ==
   /\ \A r \in reg : (Named(r) /\ FindByPath(r.acct, r.path) # 0) => ChildNames(FindByPath(r.acct, r.path)) = KidsOf(r)
   /\ \A a \in Accts : RootOf(a) # 0 => ChildNames(RootOf(a)) = {n \in Names : PathTaken(a, <<n>>)}
